@@ -236,6 +236,16 @@ fn file_index(files: &Files, name: &str) -> Option<usize> {
     files.iter().position(|(n, _)| n == name)
 }
 
+/// the file a located message is in: the first file of that name in which the position exists and whose line is the
+/// one the message shows (command-line defines are all called `<define>`); otherwise the first file of that name
+fn find_file(files: &Files, name: &str, l: usize, c: usize, src: Option<&str>) -> Option<usize> {
+    let fits = |fi: usize| match offset_of(&files[fi].1, l, c) {
+        Some(off) => src.map_or(true, |s| line_text(&files[fi].1, off) == s),
+        None => false,
+    };
+    (0..files.len()).find(|fi| files[*fi].0 == name && fits(*fi)).or_else(|| file_index(files, name))
+}
+
 /// Check that a diagnostic is consistent with the files it names, and give the (file, offset) of each block
 fn diag_positions(blocks: &[Block], files: &Files) -> Result<Vec<Option<(usize, usize)>>, String> {
     let mut out = Vec::new();
@@ -243,7 +253,7 @@ fn diag_positions(blocks: &[Block], files: &Files) -> Result<Vec<Option<(usize, 
         match &b.loc {
             None => out.push(None),
             Some((f, l, c)) => {
-                let Some(fi) = file_index(files, f) else {
+                let Some(fi) = find_file(files, f, *l, *c, b.src.as_ref().map(|s| s.0.as_str())) else {
                     return Err(format!("[diagnostic names a file that was never loaded] '{}' ({}: {})", f, b.sev, b.msg));
                 };
                 let Some(off) = offset_of(&files[fi].1, *l, *c) else {
@@ -807,25 +817,48 @@ fn pad_lines(rng: &mut Rng, k: usize) -> String {
 // the metamorphic case
 // ------------------------------------------------------------------------------------------------
 
-/// `all` | `nopipeline`, optionally followed by `+layout` (validate_layout_consistency)
-fn parse_mode(s: &str) -> Option<(Mode, bool)> {
-    let (m, layout) = match s.strip_suffix("+layout") {
-        Some(m) => (m, true),
-        None => (s, false),
+/// compile options of a case: pipeline mode, validate_layout_consistency, and how many of the leading entries of
+/// the file list are command-line defines (`CompileArgs::defines`): the compiler loads each as a file named
+/// `<define>` with the contents `NAME VALUE` *before* the entry file, so that is how the request carries them
+#[derive(Clone)]
+struct Opts {
+    mode: Mode,
+    layout: bool,
+    ndefs: usize,
+}
+
+const DEFINE_FILE: &str = "<define>";
+
+/// `all` | `nopipeline`, optionally followed by `+layout` (validate_layout_consistency) and `+defs<n>`
+fn parse_mode(s: &str) -> Option<Opts> {
+    let mut parts = s.split('+');
+    let mode = match parts.next()? {
+        "all" => Mode::All,
+        "nopipeline" => Mode::NoPipeline,
+        _ => return None,
     };
-    match m {
-        "all" => Some((Mode::All, layout)),
-        "nopipeline" => Some((Mode::NoPipeline, layout)),
-        _ => None,
+    let mut o = Opts { mode, layout: false, ndefs: 0 };
+    for p in parts {
+        if p == "layout" {
+            o.layout = true;
+        } else if let Some(n) = p.strip_prefix("defs") {
+            o.ndefs = n.parse().ok()?;
+        } else {
+            return None;
+        }
     }
+    Some(o)
 }
 
-fn show_mode(mode: &Mode, layout: bool) -> String {
-    format!("{}{}", mode.show(), if layout { "+layout" } else { "" })
+fn show_mode(o: &Opts) -> String {
+    format!("{}{}{}", o.mode.show(), if o.layout { "+layout" } else { "" }, if o.ndefs > 0 { format!("+defs{}", o.ndefs) } else { String::new() })
 }
 
-fn compile_files(files: &Files, tgt: Tgt, mode: &Mode, layout: bool) -> CompileOutcome {
-    compile(&Job { entry: &files[0].0, files, defines: &[], target: tgt, mode: mode.clone(), validate_layout: layout })
+fn compile_files(files: &Files, tgt: Tgt, o: &Opts) -> CompileOutcome {
+    let nd = o.ndefs.min(files.len().saturating_sub(1));
+    let defs: Vec<(&str, &str)> = files[..nd].iter().map(|(_, t)| t.split_once(' ').unwrap_or((t.as_str(), ""))).collect();
+    let real: Files = files[nd..].to_vec();
+    compile(&Job { entry: &real[0].0, files: &real, defines: &defs, target: tgt, mode: o.mode.clone(), validate_layout: o.layout })
 }
 
 struct Verdict {
@@ -842,7 +875,7 @@ fn first_header(e: &str, files: &Files) -> (String, String) {
             None => ("err:-".into(), "err -".into()),
             Some((f, l, c)) => {
                 let obs = format!("err {}:{}:{}", f, l, c);
-                match file_index(files, f).and_then(|fi| offset_of(&files[fi].1, *l, *c).map(|o| (fi, o))) {
+                match find_file(files, f, *l, *c, blocks[0].src.as_ref().map(|s| s.0.as_str())).and_then(|fi| offset_of(&files[fi].1, *l, *c).map(|o| (fi, o))) {
                     Some((fi, o)) => (format!("err:{}:{}", fi, o), obs),
                     None => ("err:?".into(), obs),
                 }
@@ -1235,6 +1268,7 @@ const OWN_FAMILIES: &[&str] = &[
     "nt_redef_across_files", "nt_redef_in_include", "nt_overload_across_files", "nt_same_file",
     "lt_no_final_newline", "lt_include_last_line", "lt_empty_files", "lt_error_at_eof", "lt_crlf", "lt_tabs_utf8", "lt_splice",
     "lt_not_whitespace", "lt_comment_ends_file", "lt_directive_trivia", "lt_angle_include", "lt_tokens", "lt_ok_shapes",
+    "lt_defined_forms", "lt_directive_shapes", "lt_macro_shapes", "lt_cmdline_defines",
 ];
 
 /// one rejected program per diagnostic that C07's families (which report only the first of their offenders) rarely
@@ -1293,6 +1327,8 @@ const LX_SINGLE: &[&str] = &[
     "struct S { int m = 1; };\n", "static SamplerState g = StaticSampler { Filter = MIN_MAG_MIP_LINEAR; };\n",
     "struct H { float x; };\nfloat hm() { H h; return h.missing; }\n", "void g1(int p) { }\nvoid g2() { }\nvoid g3() { g1(g2); }\n",
     "void g4() { int l : register(t0); }\n",
+    "#define M(a b) a\n", "#define M(a,) a\n", "#define M(1) a\n", "#include <abc\ndef>\n", "#if defined A B\n#endif\n", "#if defined 1\n#endif\n",
+    "#define G(x) x\n#define F(x) x\nstatic int v = F(G(1, 2));\n", "#define F(x) x\nstatic int v = F(1;\n#define Q 1\n", "#define C(a, b) a ## b\nstatic int v = C(+, -);\n",
 ];
 
 fn own_family_names() -> Vec<String> {
@@ -1313,6 +1349,8 @@ struct OwnProg {
     anchors: Vec<(usize, String)>,
     /// (message index, file index, marker): where a note has to point
     note: Option<(usize, usize, String)>,
+    /// the first `ndefs` files are command-line defines (`<define>`, `NAME VALUE`)
+    ndefs: usize,
 }
 
 fn own_program(family: &str, rng: &mut Rng) -> Option<OwnProg> {
@@ -1325,7 +1363,7 @@ fn own_program(family: &str, rng: &mut Rng) -> Option<OwnProg> {
             _ => format!("/* block {} */\n", i),
         });
     }
-    let one = |src: String, anchors: Vec<(usize, String)>| Some(OwnProg { files: vec![("main.rssl".to_string(), src)], mode: Mode::NoPipeline, anchors, note: None });
+    let one = |src: String, anchors: Vec<(usize, String)>| Some(OwnProg { files: vec![("main.rssl".to_string(), src)], mode: Mode::NoPipeline, anchors, note: None, ndefs: 0 });
     let bad = format!("undeclared_{}", n);
     if let Some(i) = family.strip_prefix("ty_single#") {
         let src = TY_SINGLE.get(i.parse::<usize>().ok()?)?;
@@ -1334,12 +1372,13 @@ fn own_program(family: &str, rng: &mut Rng) -> Option<OwnProg> {
             mode: Mode::All,
             anchors: vec![],
             note: None,
+            ndefs: 0,
         });
     }
     if let Some(i) = family.strip_prefix("lx_single#") {
         let src = LX_SINGLE.get(i.parse::<usize>().ok()?)?;
         let before = if rng.chance(1, 2) { "int before_it() { return 0; }\n" } else { "" };
-        return Some(OwnProg { files: vec![("main.rssl".to_string(), format!("{}{}{}int f() {{ return 1; }}\n", head, before, src))], mode: Mode::NoPipeline, anchors: vec![], note: None });
+        return Some(OwnProg { files: vec![("main.rssl".to_string(), format!("{}{}{}int f() {{ return 1; }}\n", head, before, src))], mode: Mode::NoPipeline, anchors: vec![], note: None, ndefs: 0 });
     }
     match family {
         "mx_obj_body" => one(format!("{}#define BAD_{} (1 + {})\nint f()\n{{\n    int a = 2;\n    return a + BAD_{};\n}}\n", head, n, bad, n), vec![(0, bad.clone())]),
@@ -1360,6 +1399,7 @@ fn own_program(family: &str, rng: &mut Rng) -> Option<OwnProg> {
             mode: Mode::NoPipeline,
             anchors: vec![(1, bad.clone())],
             note: None,
+            ndefs: 0,
         }),
         "mx_use_in_include" => Some(OwnProg {
             files: vec![
@@ -1369,6 +1409,7 @@ fn own_program(family: &str, rng: &mut Rng) -> Option<OwnProg> {
             mode: Mode::NoPipeline,
             anchors: vec![(0, bad.clone())],
             note: None,
+            ndefs: 0,
         }),
         "mx_type_error" => one(
             format!("{}#define MUL_{}(a, b) ((a) * (b))\nstruct S {{ int m; }};\nint f()\n{{\n    S s;\n    return MUL_{}(s, 2);\n}}\n", head, n, n),
@@ -1398,6 +1439,7 @@ fn own_program(family: &str, rng: &mut Rng) -> Option<OwnProg> {
             mode: Mode::NoPipeline,
             anchors: vec![(0, format!("Shared_{}", n))],
             note: Some((1, 1, format!("Shared_{}", n))),
+            ndefs: 0,
         }),
         "nt_redef_in_include" => Some(OwnProg {
             files: vec![
@@ -1407,6 +1449,7 @@ fn own_program(family: &str, rng: &mut Rng) -> Option<OwnProg> {
             mode: Mode::NoPipeline,
             anchors: vec![(1, format!("g_value_{}", n))],
             note: None,
+            ndefs: 0,
         }),
         "nt_overload_across_files" => Some(OwnProg {
             files: vec![
@@ -1417,6 +1460,7 @@ fn own_program(family: &str, rng: &mut Rng) -> Option<OwnProg> {
             mode: Mode::NoPipeline,
             anchors: vec![(0, format!("pick_{}(v", n))],
             note: Some((2, 2, format!("pick_{}", n))),
+            ndefs: 0,
         }),
         "nt_same_file" => one(format!("{}int twice_{}(int p)\n{{\n    return p;\n}}\n\n\nint twice_{}(int p)\n{{\n    return p + 1;\n}}\n", head, n, n), vec![]),
         "lt_no_final_newline" => {
@@ -1440,6 +1484,7 @@ fn own_program(family: &str, rng: &mut Rng) -> Option<OwnProg> {
                 mode: Mode::NoPipeline,
                 anchors: vec![],
                 note: None,
+                ndefs: 0,
             })
         }
         "lt_empty_files" => {
@@ -1450,6 +1495,7 @@ fn own_program(family: &str, rng: &mut Rng) -> Option<OwnProg> {
                 mode: if rng.chance(1, 2) { Mode::NoPipeline } else { Mode::All },
                 anchors: vec![],
                 note: None,
+                ndefs: 0,
             })
         }
         "lt_error_at_eof" => {
@@ -1500,11 +1546,12 @@ fn own_program(family: &str, rng: &mut Rng) -> Option<OwnProg> {
             mode: Mode::NoPipeline,
             anchors: vec![],
             note: None,
+            ndefs: 0,
         }),
         "lt_tokens" => {
             // every token shape next to every other: numbers with suffixes, strings, operators that could merge
             let items = [
-                "0x1Fu", "017", "08", "1ul", "2LU", "3l", "1.5h", "2.0f", "3.0L", "1e3", "1.e+2", "0.5e-1f", "1.#INF", "true", "false", "x", "x1", "\"s t\"", "(x)", "x.y",
+                "0x1Fu", "017", "017u", "07UL", "08", "1ul", "2LU", "3l", "1.5h", "2.0f", "3.0L", "1e3", "1.e+2", "0.5e-1f", "1.#INF", "true", "false", "x", "x1", "\"s t\"", "(x)", "x.y",
                 "x ++", "++ x", "x --", "- - x", "+ + x", "x + + 1", "x - - 1", "x < < 1", "x > > 1", "x < = 1", "x & & 1", "x | | 1", "x = = 1", "! = x", "x / / 2", "x / * 2 * / 3",
                 "a ? b : c", "a :: b", "a : : b", "x <<= 1", "x >>= 1", "x->y", "~x", "x % = 2", "x ^ = 2", "# #", "@",
             ];
@@ -1524,6 +1571,113 @@ fn own_program(family: &str, rng: &mut Rng) -> Option<OwnProg> {
             ]);
             one(format!("{}{}", head, src), vec![])
         }
+        "lt_defined_forms" => {
+            // every spelling of the `defined` operator (with and without parentheses: the form without needs white space,
+            // and a comment or a spliced line end is white space), in accepted and rejected conditions
+            let name = format!("DEF_{}", n);
+            let cond = match rng.below(16) {
+                0 => format!("defined {}", name),
+                1 => format!("defined/* c */{}", name),
+                2 => format!("defined\\\n{}", name),
+                3 => format!("defined\t{} /* c */", name),
+                4 => format!("defined({})", name),
+                5 => format!("defined /* c */ ( /* d */ {} /* e */ ) /* f */", name),
+                6 => format!("defined {} && defined {}", name, name),
+                7 => format!("(defined {})", name),
+                8 => format!("!defined {} || defined NOT_{}", name, name),
+                9 => format!("!defined NOT_{} && defined({}) && {} > 2", name, name, name),
+                10 => format!("defined {} junk", name),
+                11 => "defined".to_string(),
+                12 => "defined 1".to_string(),
+                13 => format!("defined({}", name),
+                14 => format!("defined({}, {})", name, name),
+                _ => format!("defined {} + 1 == 2", name),
+            };
+            let kw = *rng.pick(&["#if", "#if 0\n#elif", "  #\tif"]);
+            // "#if condition parser failed" is reported at the first token of the condition
+            let a = if cond.ends_with("junk") || cond.ends_with("== 2") { vec![(0, "defined".to_string())] } else { vec![] };
+            one(format!("{}#define {} 3\n{} {}\nint f() {{ return 1; }}\n#else\nint f() {{ return 2; }}\n#endif\nint g() {{ return f(); }}\n", head, name, kw, cond), a)
+        }
+        "lt_directive_shapes" => {
+            // directive lines the other families do not write: commands that do nothing, commands inside a skipped
+            // block that are not even names, an error of the text in front of a directive
+            let v = rng.below(12);
+            // an invalid parameter list is reported at the macro name, a header name that wraps at its `<`
+            let a = match v {
+                8..=10 => vec![(0, format!("M_{}", n))],
+                11 => vec![(0, "<abc".to_string())],
+                _ => vec![],
+            };
+            let src = match v {
+                0 => format!("#undef NEVER_DEFINED_{}\nint f() {{ return 1; }}\n", n),
+                1 => "#pragma warning(disable: 3557)\nint f() { return 1; }\n#pragma warning ( default : 3557 ) // c\n".to_string(),
+                2 => "#if 0\n# 12 junk\n#\"str\"\n#+\n# /* c */ 7\n#endif\nint f() { return 1; }\n".to_string(),
+                3 => "#ifdef NOPE\n#pragma unknown_in_skipped\n#include \"missing_in_skipped.h\"\n#define BROKEN(\n#undef 1\n#else\nint f() { return 1; }\n#endif\n".to_string(),
+                4 => format!("#define F_{}(x) x\nstatic int v = F_{}(1;\n#define Q 1\nstatic int w = 2;\n", n, n),
+                5 => format!("#define F_{}(x) x\nstatic int v = F_{}(1, 2);\n#undef F_{}\nstatic int w = 2;\n", n, n, n),
+                6 => format!("#define G_{}(x) x\n#define F_{}(x) x\nstatic int v = F_{}(G_{}(1, 2));\n", n, n, n, n),
+                7 => format!("#define G_{}(x) x\n#define F_{}(x) x\nstatic int v = F_{}(G_{}(1);\n", n, n, n, n),
+                8 => format!("#define M_{}(a b) a\nint f() {{ return 1; }}\n", n),
+                9 => format!("#define M_{}(a,) a\nint f() {{ return 1; }}\n", n),
+                10 => format!("#define M_{}(1) a\nint f() {{ return 1; }}\n", n),
+                _ => "#include <abc\ndef>\nint f() { return 1; }\n".to_string(),
+            };
+            one(format!("{}{}", head, src), a)
+        }
+        "lt_macro_shapes" => {
+            // macro uses the generator does not write: a function-like macro name that is not called, mutually recursive
+            // macros, a call produced by another macro, an argument that is a call of the same macro, octal literals with a suffix
+            let src = match rng.below(6) {
+                0 => format!("#define FN_{0}(a) (a * 2)\nint f(int x) {{\n    int FN_{0} = 3;\n    return FN_{0} + FN_{0}(x) + FN_{0} ;\n}}\n", n),
+                1 => format!("#define F_{0}(x) G_{0}(x)\n#define G_{0}(x) F_{0}(x) + 1\nint F_{0}(int a) {{ return a; }}\nint f() {{ return G_{0}(2) + F_{0}(3); }}\n", n),
+                2 => format!("#define OBJ_{0} FN_{0}\n#define FN_{0}(a) (a + 1)\nint f(int x) {{ return OBJ_{0}(x) + OBJ_{0} (x) + FN_{0}(FN_{0}(x)); }}\n", n),
+                3 => format!("#define ID_{0}(x) x\n#define CALL_{0}(m, a) m(a)\nint f(int x) {{ return CALL_{0}(ID_{0}, x) + ID_{0}(ID_{0})(x); }}\n", n),
+                4 => "static uint v = 017u + 0u + 07U + 0x7u + 017UL + 01lu;\nint f() { return (int)v; }\n".to_string(),
+                _ => format!("#define E_{0}\n#define S_{0}(x) x\nint f() {{ return S_{0}(E_{0}) 1 + S_{0}() 2 + S_{0}( ) 3; }}\n", n),
+            };
+            one(format!("{}{}", head, src), vec![])
+        }
+        "lt_cmdline_defines" => {
+            // CompileArgs::defines: each define is loaded as a file `<define>` holding `NAME VALUE` in front of the entry
+            // file, so every position of the program lies behind them and a diagnostic inside a define's text names that file
+            let mut files: Files = Vec::new();
+            let pads = ["CLD_PAD_A 11", "CLD_PAD_B(p, q) ((p) + (q) + 100)", "CLD_PAD_C ", "CLD_ONE 0", "CLD_PAD_D \"a fairly long string literal that makes this define larger than the entry file\""];
+            for _ in 0..rng.below(4) {
+                files.push((DEFINE_FILE.to_string(), rng.pick(&pads).to_string()));
+            }
+            let variant = rng.below(12);
+            let (def, main, inc, anchor): (Vec<String>, String, Option<String>, Option<(i32, String)>) = match variant {
+                // anchor file: -1 = the last define, 0 = the entry file, 1 = the included file
+                0 => (vec!["CLD_ONE 1".into(), "CLD_FN(x) ((x) + 1)".into(), "CLD_EMPTY ".into(), "CLD_T int".into()],
+                      "#include \"inc.h\"\n#ifdef CLD_ONE\nstatic CLD_T v = CLD_EMPTY CLD_FN(CLD_ONE) + w;\n#endif\n#if CLD_ONE > 0 && defined CLD_EMPTY\nint f() { return v; }\n#endif\n".into(),
+                      Some("static CLD_T w = CLD_FN (2);\n".into()), None),
+                1 => (vec![format!("CLD_BAD (1 + {})", bad)], "static int v = 2;\nstatic int w = CLD_BAD;\n".into(), None, Some((-1, bad.clone()))),
+                2 => (vec![format!("CLD_FN(x) ((x) + {})", bad)], "static int v = 2;\nstatic int w = CLD_FN(v);\n".into(), None, Some((-1, bad.clone()))),
+                3 => (vec!["CLD_FN(x) ((x) + 1)".into()], format!("static int v = 2;\nstatic int w = CLD_FN({});\n", bad), None, Some((0, bad.clone()))),
+                4 => (vec!["CLD_ONE 1".into()], "#include \"inc.h\"\nstatic int v = CLD_ONE + w;\n".into(), Some(format!("// inc\nstatic int w = CLD_ONE + {};\n", bad)), Some((1, bad.clone()))),
+                5 => (vec!["CLD_DECL static int cld_v = 1;".into()], "CLD_DECL\n\nCLD_DECL\n".into(), None, Some((-1, "cld_v".into()))),
+                6 => (vec!["CLD_ONE 1".into()], format!("int f()\n{{\n    return CLD_ONE + {};\n}}\n", bad), None, Some((0, bad.clone()))),
+                7 => (vec![rng.pick(&["CLD_X(a 1", "1 1", "CLD_X 1 $", "CLD_X 1\n2", "CLD_X(a,) a", " "]).to_string()], "int f() { return 1; }\n".into(), None, None),
+                8 => (vec!["CLD_ONE 1".into()], format!("#undef CLD_ONE\nstatic int v = CLD_ONE;\n#define CLD_ONE {}\nstatic int w = CLD_ONE;\n", if rng.chance(1, 2) { "2" } else { bad.as_str() }), None, None),
+                9 => (vec!["CLD_CAT(a, b) a ## b".into()], "static int CLD_CAT(v, 1) = 1;\nstatic int w = CLD_CAT(v, 1) + CLD_CAT(1, 2);\n".into(), None, None),
+                10 => (vec!["CLD_T int".into()], "static CLD_T v = 1;\nstatic CLD_T v = 2;\n".into(), None, None),
+                _ => (vec!["CLD_ONE 1 // c".into(), "CLD_TWO /* c */ 2 /* d */".into(), "CLD_THREE\t3\\".into()], "static int v = CLD_ONE + CLD_TWO;\n".into(), None, None),
+            };
+            for d in def {
+                files.push((DEFINE_FILE.to_string(), d));
+            }
+            let ndefs = files.len();
+            files.push(("main.rssl".to_string(), format!("{}{}", head, main)));
+            if let Some(i) = inc {
+                files.push(("inc.h".to_string(), i));
+            }
+            let anchors = match anchor {
+                Some((-1, m)) => vec![(ndefs - 1, m)],
+                Some((k, m)) => vec![(ndefs + k as usize, m)],
+                None => vec![],
+            };
+            Some(OwnProg { files, mode: Mode::NoPipeline, anchors, note: None, ndefs })
+        }
         _ => None,
     }
 }
@@ -1533,13 +1687,13 @@ fn family_source(kind: &str, family: &str, seed: u64) -> Option<Source> {
     let mut r = Rng::new(seed);
     if kind == "diag" {
         let p = diag::diag_program(family, &mut r)?;
-        Some(Source { files: p.files, mode: Mode::All, layout: p.layout, tag: format!("diag:{}:{}", family, seed), clean: None, anchor: None, note_anchor: None })
+        Some(Source { files: p.files, mode: Mode::All, layout: p.layout, ndefs: 0, tag: format!("diag:{}:{}", family, seed), clean: None, anchor: None, note_anchor: None })
     } else {
         let p = own_program(family, &mut r)?;
         // where the first diagnostic has to point: the first marker that exists (exact position)
         let anchor = p.anchors.iter().find_map(|(fi, m)| p.files[*fi].1.find(m.as_str()).map(|o| (*fi, o, o)));
         let note_anchor = p.note.as_ref().and_then(|(b, fi, m)| p.files[*fi].1.find(m.as_str()).map(|o| (*b, *fi, o, o)));
-        Some(Source { files: p.files, mode: p.mode, layout: false, tag: format!("own:{}:{}", family, seed), clean: None, anchor, note_anchor })
+        Some(Source { files: p.files, mode: p.mode, layout: false, ndefs: p.ndefs, tag: format!("own:{}:{}", family, seed), clean: None, anchor, note_anchor })
     }
 }
 
@@ -1548,6 +1702,8 @@ struct Source {
     mode: Mode,
     /// compile with validate_layout_consistency(true)
     layout: bool,
+    /// the first `ndefs` files are command-line defines
+    ndefs: usize,
     tag: String,
     /// the files before the error was injected, and where the diagnostic has to point:
     /// (file index, lowest and highest admissible offset)
@@ -1637,7 +1793,12 @@ fn anchor_check_block(files: &Files, base: &CompileOutcome, block: usize, anchor
                         return Err(format!("[diagnostic names the wrong file] {}:{}:{} for an error in {}", f, l, c, what));
                     }
                     match offset_of(&files[fi].1, *l, *c) {
-                        Some(off) if lo <= off && off <= hi => Ok(()),
+                        Some(off) if lo <= off && off <= hi => match &blocks[block].src {
+                            Some((shown, _)) if *shown != line_text(&files[fi].1, off) => {
+                                Err(format!("[diagnostic shows a different source line] {}:{}:{} shows {:?} for an error at {}", f, l, c, shown, what))
+                            }
+                            _ => Ok(()),
+                        },
                         _ => Err(format!("[diagnostic not at the injected construct] {}:{}:{} for an error at {}", f, l, c, what)),
                     }
                 }
@@ -1683,7 +1844,24 @@ fn gen_source(rng: &mut Rng, hist: &mut Hist) -> Source {
     } else {
         hist.add("inject=none");
     }
-    Source { files, mode, layout: false, tag, clean, anchor, note_anchor: None }
+    // command-line defines in front of a generated program: every position of the program lies behind their pseudo-files
+    let mut ndefs = 0;
+    if r.chance(1, 6) {
+        let pads = ["CLD_GEN_A 11", "CLD_GEN_B(p, q) ((p) + (q) + 100)", "CLD_GEN_C ", "CLD_GEN_D \"a string literal that makes this define larger than most lines\""];
+        let mut defs: Files = Vec::new();
+        for _ in 0..r.range(1, 4) {
+            defs.push((DEFINE_FILE.to_string(), r.pick(&pads).to_string()));
+        }
+        ndefs = defs.len();
+        files = defs.iter().cloned().chain(files.into_iter()).collect();
+        clean = clean.map(|c| defs.iter().cloned().chain(c.into_iter()).collect());
+        anchor = anchor.map(|(fi, lo, hi)| (fi + ndefs, lo, hi));
+        tag.push_str(&format!(",defines:{}", ndefs));
+        hist.add(&format!("command-line-defines={}", ndefs));
+    } else {
+        hist.add("command-line-defines=0");
+    }
+    Source { files, mode, layout: false, ndefs, tag, clean, anchor, note_anchor: None }
 }
 
 // ------------------------------------------------------------------------------------------------
@@ -1898,9 +2076,9 @@ fn emit(out: &mut Out, hist: &mut Hist, r: MetaResult) {
 
 fn run_source(src: &Source, tgt: Tgt, rng: &mut Rng, out: &mut Out, hist: &mut Hist, per_source: usize, targeted: usize) {
     let files = &src.files;
-    let mode = src.mode.clone();
-    let layout = src.layout;
-    let compile_fn = |f: &Files| compile_files(f, tgt, &mode, layout);
+    let opts = Opts { mode: src.mode.clone(), layout: src.layout, ndefs: src.ndefs };
+    let ndefs = src.ndefs;
+    let compile_fn = |f: &Files| compile_files(f, tgt, &opts);
     let base = compile_fn(files);
     let v0 = verdict(&base, files);
     hist.add(&format!("base={}", v0.base.split(':').take(if v0.base.starts_with("err:") { 1 } else { 2 }).collect::<Vec<_>>().join(":")));
@@ -1910,7 +2088,7 @@ fn run_source(src: &Source, tgt: Tgt, rng: &mut Rng, out: &mut Out, hist: &mut H
             hist.add(&format!("message={}", clip(&b[0].msg, 40).chars().filter(|c| !c.is_ascii_digit()).collect::<String>()));
             hist.add(&format!("messages-per-diagnostic={}", b.len()));
             if let Some((f, _, _)) = &b[0].loc {
-                hist.add(&format!("diagnostic-in={}", if *f == files[0].0 { "entry-file" } else if file_index(files, f).is_some() { "included-file" } else { "other" }));
+                hist.add(&format!("diagnostic-in={}", if f == DEFINE_FILE && ndefs > 0 { "command-line-define" } else if *f == files[ndefs].0 { "entry-file" } else if file_index(files, f).is_some() { "included-file" } else { "other" }));
             } else {
                 hist.add("diagnostic-in=nowhere");
             }
@@ -1932,7 +2110,7 @@ fn run_source(src: &Source, tgt: Tgt, rng: &mut Rng, out: &mut Out, hist: &mut H
     }
     let macros = all_fn_macros(files);
     let info = analyse(files, &macros);
-    let prefix = format!("C14.meta\t{}\t{}\t{}", tgt.name(), show_mode(&mode, layout), enc_files(files));
+    let prefix = format!("C14.meta\t{}\t{}\t{}", tgt.name(), show_mode(&opts), enc_files(files));
     // the diagnostic of an injected error names the file it was injected into and the injected construct
     if let (Some(clean), Some(anchor)) = (&src.clean, src.anchor) {
         if matches!(base, CompileOutcome::Ok(_)) {
@@ -1971,11 +2149,16 @@ fn run_source(src: &Source, tgt: Tgt, rng: &mut Rng, out: &mut Out, hist: &mut H
                 hist.add("targeted-edit=none(no such place)");
                 continue;
             };
+            if fi < ndefs {
+                // the construct is the text of a command-line define: not a file whose layout can be edited
+                hist.add("targeted-edit=none(in a command-line define)");
+                continue;
+            }
             hist.add(&format!("targeted-edit={}", label));
             if let Some((_, k)) = lines_mode {
                 hist.add(&format!("edit=lines k={}", k_bucket(k)));
             }
-            hist.add(if fi == 0 { "edited=entry-file" } else { "edited=included-file" });
+            hist.add(if fi == ndefs { "edited=entry-file" } else { "edited=included-file" });
             let text = &files[fi].1;
             let ctx_of = |e: &Edits| describe_edits(text, e, &macros);
             let tag = match lines_mode {
@@ -1986,8 +2169,10 @@ fn run_source(src: &Source, tgt: Tgt, rng: &mut Rng, out: &mut Out, hist: &mut H
             emit(out, hist, r);
         }
     }
+    // programs with command-line defines get more random edits: aimed ones that land in a define are dropped
+    let per_source = if ndefs > 0 { per_source + 4 } else { per_source };
     for case in 0..per_source {
-        let fi = rng.below(files.len() as u64) as usize;
+        let fi = ndefs + rng.below((files.len() - ndefs) as u64) as usize;
         let text = &files[fi].1;
         let inf = &info[fi];
         let lines_case = case % 3 == 0 || inf.bounds.is_empty() || (!inf.complete && rng.chance(1, 2));
@@ -1998,7 +2183,7 @@ fn run_source(src: &Source, tgt: Tgt, rng: &mut Rng, out: &mut Out, hist: &mut H
             let k = random_k(rng);
             let edits: Edits = vec![(p, pad_lines(rng, k))];
             hist.add(&format!("edit=lines k={}", k_bucket(k)));
-            hist.add(if fi == 0 { "edited=entry-file" } else { "edited=included-file" });
+            hist.add(if fi == ndefs { "edited=entry-file" } else { "edited=included-file" });
             let tag = format!("{},lines:{}@{}", src.tag, k, p);
             let r = run_meta_files(&prefix, files, fi, &edits, &tag, &compile_fn, &base, Some((p, k)), &ctx_of);
             emit(out, hist, r);
@@ -2017,7 +2202,7 @@ fn run_source(src: &Source, tgt: Tgt, rng: &mut Rng, out: &mut Out, hist: &mut H
                 edits.push((b.off, t));
             }
             hist.add(&format!("edit=trivia n={}", if edits.len() == 1 { "1".to_string() } else if edits.len() <= 3 { "2-3".into() } else { "many".into() }));
-            hist.add(if fi == 0 { "edited=entry-file" } else { "edited=included-file" });
+            hist.add(if fi == ndefs { "edited=entry-file" } else { "edited=included-file" });
             let tag = format!("{},trivia:{}", src.tag, edits.len());
             let r = run_meta_files(&prefix, files, fi, &edits, &tag, &compile_fn, &base, None, &ctx_of);
             emit(out, hist, r);
@@ -2214,7 +2399,7 @@ fn move_through_end(edits: &Edits, e: usize) -> usize {
 }
 
 const SOUP: &[&str] = &[
-    "a", "x1", "_u", "int", "return", "auto", "e", "E", "f", "u", "l", "x", "INF", "0", "1", "9", "08", "017", "0x1F", "0x", "1u", "1ul", "2LU", "3l", "1.5", "1.", "2.0f", "1.0h",
+    "a", "x1", "_u", "int", "return", "auto", "e", "E", "f", "u", "l", "x", "INF", "0", "1", "9", "08", "017", "017u", "07UL", "0x1F", "0x", "1u", "1ul", "2LU", "3l", "1.5", "1.", "2.0f", "1.0h",
     "3.0L", "1e3", "1e", "1e+", "1.e-2", "1.#INF", "1.#", "1.0#IN", "\"s\"", "\"a b\"", "\"", "'", "+", "++", "+=", "-", "--", "-=", "*", "*=", "/", "/=", "%", "=", "==", "!", "!=",
     "&", "&&", "|", "||", "^", "~", "<", ">", "<<", ">>", "<=", ">=", "(", ")", "[", "]", "{", "}", ";", ",", ".", ":", "::", "?", "#", "##", "@", "$", "`", "\\", "\u{e9}",
     " ", "  ", "\t", "\n", "\r\n", "\r", "\\\n", "\\\r\n", "/**/", "/* c */", "/*/ c */", "/***/", "/* \n */", "// c\n", "//\n", "// c", "// c \\\n d\n", "/* open", "/*/", "\u{c}", "\u{a0}", "\u{feff}",
@@ -2659,18 +2844,18 @@ fn replay(lines: Vec<String>, out: &mut Out, hist: &mut Hist) {
                 }
             }
             "C14.meta" if f.len() >= 6 => {
-                let (Some(tgt), Some((mode, layout)), Some(files), Ok(fi), Some(edits)) =
+                let (Some(tgt), Some(opts), Some(files), Ok(fi), Some(edits)) =
                     (Tgt::parse(f[1]), parse_mode(f[2]), dec_files(f[3]), f[4].parse::<usize>(), dec_edits(f[5]))
                 else {
                     continue;
                 };
-                if files.is_empty() || fi >= files.len() {
+                if files.is_empty() || fi >= files.len() || opts.ndefs >= files.len() {
                     continue;
                 }
                 let tag = f.get(8).copied().unwrap_or("replay");
-                let compile_fn = |fs: &Files| compile_files(fs, tgt, &mode, layout);
+                let compile_fn = |fs: &Files| compile_files(fs, tgt, &opts);
                 let base = compile_fn(&files);
-                let prefix = format!("C14.meta\t{}\t{}\t{}", tgt.name(), show_mode(&mode, layout), enc_files(&files));
+                let prefix = format!("C14.meta\t{}\t{}\t{}", tgt.name(), show_mode(&opts), enc_files(&files));
                 if let Some(a) = tag.split(',').find_map(|t| t.strip_prefix("anchorb:")) {
                     let v: Vec<usize> = a.split(':').filter_map(|x| x.parse().ok()).collect();
                     if v.len() == 4 && v[1] < files.len() && edits.is_empty() {
@@ -2700,8 +2885,8 @@ fn replay(lines: Vec<String>, out: &mut Out, hist: &mut Hist) {
             }
             // manual probing only: the full outcome of one compilation
             "C14.show" if f.len() >= 4 => {
-                if let (Some(tgt), Some((mode, layout)), Some(files)) = (Tgt::parse(f[1]), parse_mode(f[2]), dec_files(f[3])) {
-                    let o = match compile_files(&files, tgt, &mode, layout) {
+                if let (Some(tgt), Some(opts), Some(files)) = (Tgt::parse(f[1]), parse_mode(f[2]), dec_files(f[3])) {
+                    let o = match compile_files(&files, tgt, &opts) {
                         CompileOutcome::Ok(p) => format!("ok: {}", p.iter().map(|x| one_line(&x.text())).collect::<Vec<_>>().join(" ### ")),
                         CompileOutcome::Err(e) => format!("err: {}", one_line(&e)),
                         CompileOutcome::Panic(p) => format!("panic: {}", p),
@@ -2759,7 +2944,14 @@ pub fn run(args: &Args, out: &mut Out) {
     for (kind, fams) in [("diag", diag_names), ("own", own_family_names())] {
         for (fi, family) in fams.iter().enumerate() {
             // the single-program families have no variation beyond their header lines
-            let seeds = if family.starts_with("ty_single#") || family.starts_with("lx_single#") { (seeds_per_family / 6).max(1) } else { seeds_per_family };
+            let seeds = if family.starts_with("ty_single#") || family.starts_with("lx_single#") {
+                (seeds_per_family / 6).max(1)
+            } else if ["lt_cmdline_defines", "lt_defined_forms", "lt_directive_shapes"].contains(&family.as_str()) {
+                // a dozen or more hand-written variants each
+                seeds_per_family * 3
+            } else {
+                seeds_per_family
+            };
             for j in 0..seeds {
                 let seed = rng.next() >> 16;
                 let Some(src) = family_source(kind, family, seed) else { continue };
@@ -2785,7 +2977,7 @@ pub fn run(args: &Args, out: &mut Out) {
                     continue;
                 }
                 rejected += 1;
-                let source = Source { files: vec![("type_test.rssl".to_string(), src.clone())], mode: Mode::NoPipeline, layout: false, tag: format!("repo-rejected:{}:{}", rel.rsplit('/').next().unwrap_or(""), i), clean: None, anchor: None, note_anchor: None };
+                let source = Source { files: vec![("type_test.rssl".to_string(), src.clone())], mode: Mode::NoPipeline, layout: false, ndefs: 0, tag: format!("repo-rejected:{}:{}", rel.rsplit('/').next().unwrap_or(""), i), clean: None, anchor: None, note_anchor: None };
                 run_source(&source, ALL_TARGETS[i % 4], &mut rng, out, &mut hist, 1, if thorough { 9 } else { 4 });
             }
         }
